@@ -247,8 +247,8 @@ PROPS["C08"] = dict(
     rule="for each scenario every schedule within the deviation bound is executed on a fresh copy of the scenario's initial image; oracle: a total order of the <=12 recorded operations exists that respects real time and explains every get, snapshot read, iterator scan and the final state; distinct = distinct result vectors",
     distinct_key="outcomes", assumptions=E1_ASSUME,
     stages=[dict(name="mc", driver="mc", flavour="asan", args=["--prop", "C08"],
-                 quick=["--scenarios", "D1,D1f,D2,D2b,D3,D4,D4b,D16,D17,D5,D6,D10,D11", "--bound", "2"],
-                 thorough=["--scenarios", "D1,D1f,D2,D2b,D4,D4b,D4c,D16,D17,D5,D6,D10,D11,D3", "--bound", "3"]),
+                 quick=["--scenarios", "D1,D1f,D2,D2b,D2c,D3,D4,D4b,D16,D17,D5,D6,D10,D11", "--bound", "2"],
+                 thorough=["--scenarios", "D1,D1f,D2,D2b,D2c,D4,D4b,D4c,D16,D17,D5,D6,D10,D11,D3", "--bound", "3"]),
             dict(name="mc-io", driver="mc", flavour="asan", args=["--prop", "C08", "--io", "1"], tiers=["thorough"],
                  thorough=["--scenarios", "D1,D1f,D2,D4,D11", "--bound", "2"])],
 )
@@ -284,11 +284,11 @@ PROPS["C10"] = dict(
 PROPS["C04"] = dict(
     level="model_checking",
     technique="(a) crash-point x crash-image enumeration with cuts inside every log fragment, marker keys make a half-applied batch visible; (b) stateless schedule exploration of group commit vs snapshot/iterator readers with a linearizability oracle over multi-key batches",
-    rule="(a) histories with 1/2/3-update batches (thorough: a 700-update batch over 4 log blocks) x every journal index x {max, torn cuts} images: recovered contents = fold of whole batches; (b) scenarios D2, D2b, D3: every schedule within the bound: every snapshot read / scan sees both keys of a batch or neither; distinct = distinct outcomes",
+    rule="(a) histories with 1/2/3-update batches (thorough: a 700-update batch over 4 log blocks) x every journal index x {max, torn cuts} images: recovered contents = fold of whole batches; (b) scenarios D2, D2b, D2c (group commit over disjoint keys: followers merged behind a leader, a later write, a snapshot reader of a follower batch's keys), D3: every schedule within the bound: every snapshot read / scan sees both keys of a batch or neither; distinct = distinct outcomes",
     distinct_key="outcomes", assumptions=E3_ASSUME + E1_ASSUME,
     stages=[e3_stage("C04", 2, 2, "B1", "B1;B1,snappy=1;B1,reuse=1", classes=0x22),
             dict(name="mc", driver="mc", flavour="asan", args=["--prop", "C04"],
-                 quick=["--scenarios", "D2,D2b,D3", "--bound", "2"], thorough=["--scenarios", "D2,D2b,D3", "--bound", "3"])],
+                 quick=["--scenarios", "D2,D2b,D2c,D3", "--bound", "2"], thorough=["--scenarios", "D2,D2b,D2c,D3", "--bound", "3"])],
 )
 PROPS["C12"] = dict(
     level="fault_enumeration",
